@@ -7,11 +7,25 @@ From H2 Require Import Base.Prelude Base.PyDict Model.FsmTypes Gen.Consts Gen.Ta
 Theorem altsvc_never_names_both field o i c : api_advertise_alt_svc field (Some o) (Some i) c = (c, Crash ValueError).
 Proof. reflexivity. Qed.
 
+(* only servers advertise (fix 4e7b916): on a client-side connection, in EVERY state, the call fails and changes nothing *)
+Theorem client_cannot_advertise field origin sid c :
+  client c = true -> exists r, api_advertise_alt_svc field origin sid c = (c, r) /\ is_ok r = false.
+Proof.
+  intros Hc. unfold api_advertise_alt_svc. destruct origin as [o|], sid as [i|];
+    try (eexists; split; reflexivity);
+    (unfold bind at 1; unfold get at 1; rewrite Hc; unfold bind at 1; unfold lift_res at 1; unfold perr at 1;
+     eexists; split; reflexivity).
+Qed.
+(* an advertisement names an origin or a stream (fix c0a4c40: ValueError, nothing changed, when it names neither) *)
+Theorem altsvc_names_one field c : api_advertise_alt_svc field None None c = (c, Crash ValueError).
+Proof. reflexivity. Qed.
+
 Theorem open_client_cannot_advertise field origin sid c :
   c_state c = C_CLIENT_OPEN -> is_ok (snd (api_advertise_alt_svc field origin sid c)) = false.
 Proof.
   intros Hs. unfold api_advertise_alt_svc. destruct origin as [o|], sid as [i|]; try reflexivity;
-    apply bind_err; unfold cfsm; rewrite Hs; reflexivity.
+    (unfold bind at 1; unfold get at 1; destruct (client c); [reflexivity|];
+     unfold bind at 1; unfold ret at 1; apply bind_err; unfold cfsm; rewrite Hs; reflexivity).
 Qed.
 
 (* a stream advertisement needs the request received and no response headers sent yet: over every reachable state of the
